@@ -1,6 +1,7 @@
 package main
 
 import (
+	"github.com/mmcloughlin/avo/build"
 	"fmt"
 	"go/build/constraint"
 	"reflect"
@@ -201,6 +202,47 @@ func c14(c *Ctx) {
 			disagree++
 			if disagree <= 3 {
 				o.Plan.GoViolations = append(o.Plan.GoViolations, GoViolation{Key: fmt.Sprintf("tags:validity:U+%04X", r), Desc: fmt.Sprintf("tag %q (U+%04X): avo Validate says valid=%v, the toolchain's tag predicate says %v", nm, r, av, toolValidTag(nm)), Replay: map[string]any{"rune": int(r)}})
+			}
+		}
+	}
+	// the entry points of build.Context accept a constraint exactly when the set stays valid: every way of
+	// adding one (ConstraintExpr, Constraint, Constraints) with valid, invalid, empty and blank arguments
+	{
+		type tc struct {
+			desc string
+			do   func(c *build.Context)
+			ok   bool
+		}
+		var tcs []tc
+		for _, e := range []string{"amd64", "amd64,!purego", "linux darwin", "go1.18,amd64 !appengine"} {
+			e := e
+			tcs = append(tcs, tc{fmt.Sprintf("ConstraintExpr(%q)", e), func(c *build.Context) { c.ConstraintExpr(e) }, true})
+		}
+		for _, e := range []string{"", " ", "\t", "a-b", "amd64,", "!!x", "a b,"} {
+			e := e
+			tcs = append(tcs, tc{fmt.Sprintf("ConstraintExpr(%q)", e), func(c *build.Context) { c.ConstraintExpr(e) }, false})
+		}
+		tcs = append(tcs,
+			tc{"Constraint(empty)", func(c *build.Context) { c.Constraint(buildtags.Constraint{}) }, false},
+			tc{"Constraint(one empty option)", func(c *build.Context) { c.Constraint(buildtags.Constraint{buildtags.Option{}}) }, false},
+			tc{"Constraints(valid then empty constraint)", func(c *build.Context) {
+				c.Constraints(buildtags.Constraints{buildtags.Constraint{buildtags.Option{"amd64"}}, buildtags.Constraint{}})
+			}, false},
+			tc{"Constraints(two valid)", func(c *build.Context) {
+				c.Constraints(buildtags.Constraints{buildtags.Constraint{buildtags.Option{"amd64"}}, buildtags.Constraint{buildtags.Option{"!purego"}}})
+			}, true},
+			tc{"ConstraintExpr(valid) then ConstraintExpr(blank)", func(c *build.Context) { c.ConstraintExpr("amd64"); c.ConstraintExpr("  ") }, false},
+		)
+		for _, t := range tcs {
+			ctx := build.NewContext()
+			t.do(ctx)
+			f, err := ctx.Result()
+			idx := o.AddCase(Case{Key: "tags:context", Desc: "build.Context." + t.desc, Input: map[string]any{"call": t.desc}, Nontrivial: true})
+			if (err == nil) != t.ok {
+				o.Plan.GoViolations = append(o.Plan.GoViolations, GoViolation{Key: "tags:context-acceptance", Desc: fmt.Sprintf("case %d: build.Context.%s: error=%v but the argument is valid=%v", idx, t.desc, err, t.ok), Replay: map[string]any{"call": t.desc}})
+			}
+			if err == nil && f.Constraints.Validate() != nil {
+				o.Plan.GoViolations = append(o.Plan.GoViolations, GoViolation{Key: "tags:context-invalid-set", Desc: fmt.Sprintf("case %d: build.Context.%s left an invalid constraint set in the file without an error: %v", idx, t.desc, f.Constraints.Validate()), Replay: map[string]any{"call": t.desc}})
 			}
 		}
 	}
